@@ -25,6 +25,9 @@ SpawnWhy(e) ==
   ELSE IF e.gerr # e.nerr \/ ~e.okerr THEN "spawn-stderr"
   ELSE "ok"
 
+\* join() without reading: the child finishes (it can still write its output) and its exit code is reported
+SpawnLateWhy(e) == IF ~e.st THEN "spawnlate-not-run" ELSE IF ~e.jr \/ e.xc # e.code THEN "spawnlate-exit" ELSE "ok"
+
 \* two Process objects alive at the same time (driver op spawn2): each child's streams and exit code are its own
 Spawn2Why(e) ==
   IF ~(e.st1 /\ e.st2) THEN "spawn2-not-run"
